@@ -504,17 +504,28 @@ impl Axecutor {
             new_size
         );
 
+        // The resized area must not wrap around the end of the address space
+        if start_addr.checked_add(new_size).is_none() {
+            return Err(AxError::from(format!(
+                "Cannot resize section at address {start_addr:#x} to length {new_size}, as it would wrap around the end of the address space"
+            )));
+        }
+
         // Iterate all areas once and save the index of the area to resize
         let mut area_to_resize = None;
 
         // Also make sure there's no overlapping area already defined, including code region
         for (i, area) in self.state.memory.iter().enumerate() {
             if start_addr == area.start {
-                area_to_resize = Some(i);
+                // This is the area to resize itself, it cannot collide with its own new extent
+                if area_to_resize.is_none() {
+                    area_to_resize = Some(i);
+                    continue;
+                }
             }
 
             // Make sure the new length doesn't overlap with any other area after it
-            if start_addr + new_size > area.start {
+            if area.start >= start_addr && area.start - start_addr < new_size {
                 return Err(AxError::from(format!(
                     "Cannot resize section at address {:#x} to length {}, as it overlaps with another section starting at {:#x} (len={})",
                     start_addr, new_size, area.start, area.length
